@@ -162,6 +162,9 @@ SparseMatrixCSR<T>::SparseMatrixCSR(SparseMatrixCSR&& other) noexcept
 template <typename T>
 SparseMatrixCSR<T>& SparseMatrixCSR<T>::operator=(SparseMatrixCSR&& other) noexcept
 {
+    if (this == &other) {
+        return *this; // Handle self-assignment
+    }
     rows_              = other.rows_;
     columns_           = other.columns_;
     nnz_               = other.nnz_;
